@@ -57,12 +57,12 @@ def observe(xform: str) -> dict:
         is_troot = project.TEMPLATE_ATTR in e.attrib
         idx = len(inst) + 1
         if troot:
-            t, tr = "in", troot
+            t, tr = "tmpl", troot
         elif is_troot:
-            t, tr = "root", idx
+            t, tr = "tmpl", idx
         else:
             t, tr = "no", 0
-        inst.append({"p": p, "t": t, "tr": tr, "attrs": sorted(project.qname(a) for a in e.attrib if a != project.TEMPLATE_ATTR)})
+        inst.append({"p": p, "t": t, "ta": is_troot, "tr": tr, "attrs": sorted(project.qname(a) for a in e.attrib if a != project.TEMPLATE_ATTR)})
         for k in list(e):
             walk(k, p, tr)
 
@@ -81,6 +81,7 @@ def observe(xform: str) -> dict:
                 "ref": below if below is not None else ["?" + str(ref)],
                 "abs": below is not None,
                 "par": (c["anc"][-1] + 1) if c["anc"] else 0,
+                "attrs": [[k, v] for k, v in c["attrs"].items()],
             }
         )
     binds = []
